@@ -445,6 +445,8 @@ impl<'de> Deserializer<'de> {
         Ok(res)
     }
     fn check_subtype(&mut self) -> Result<()> {
+        #[cfg(feature = "verif-hooks")]
+        crate::verif::probe("check_subtype");
         self.add_cost(self.table.0.len())?;
         subtype_with_config(
             OptReport::Silence,
@@ -756,6 +758,8 @@ impl<'de> Deserializer<'de> {
         match v.visit_some(&mut *self) {
             Ok(v) => Ok(v),
             Err(Error::Subtype(_)) => {
+                #[cfg(feature = "verif-hooks")]
+                crate::verif::probe("opt_backtrack");
                 *self = Self {
                     // Remember the backtracking cost
                     config: self.config.clone(),
@@ -844,6 +848,8 @@ impl<'de> de::Deserializer<'de> for &mut Deserializer<'de> {
     where
         V: Visitor<'de>,
     {
+        #[cfg(feature = "verif-hooks")]
+        crate::verif::tick();
         if self.field_name.is_some() {
             return self.deserialize_identifier(visitor);
         }
@@ -904,6 +910,8 @@ impl<'de> de::Deserializer<'de> for &mut Deserializer<'de> {
     where
         V: Visitor<'de>,
     {
+        #[cfg(feature = "verif-hooks")]
+        crate::verif::probe("skip_path");
         let is_untyped = replace(&mut self.is_untyped, true);
         self.expect_type = self.wire_type.clone();
         let v = self.deserialize_any(visitor);
@@ -1112,6 +1120,8 @@ impl<'de> de::Deserializer<'de> for &mut Deserializer<'de> {
                 let len = self.read_len()?;
                 let exact_primitive = exact_primitive_type(&expect, &wire);
                 if let Some(prim) = exact_primitive {
+                    #[cfg(feature = "verif-hooks")]
+                    crate::verif::probe("primitive_vec_fast_path");
                     let per_element_cost = 3 + primitive_byte_cost(prim);
                     self.add_cost(
                         len.checked_mul(per_element_cost)
@@ -1165,6 +1175,8 @@ impl<'de> de::Deserializer<'de> for &mut Deserializer<'de> {
                 };
                 #[cfg(feature = "bignum")]
                 if let Some(fast) = bignum_fast {
+                    #[cfg(feature = "verif-hooks")]
+                    crate::verif::probe("bignum_vec_fast_path");
                     self.add_cost(
                         len.checked_mul(3)
                             .ok_or_else(|| Error::msg("Vec length overflow"))?,
@@ -1276,6 +1288,8 @@ impl<'de> de::Deserializer<'de> for &mut Deserializer<'de> {
                                 let any_fast = key_text_fast;
 
                                 if any_fast {
+                                    #[cfg(feature = "verif-hooks")]
+                                    crate::verif::probe("map_fast_path");
                                     self.add_cost(
                                         len.checked_mul(7)
                                             .ok_or_else(|| Error::msg("Map length overflow"))?,
@@ -1469,6 +1483,8 @@ impl<'de> de::SeqAccess<'de> for PrimitiveVecAccess<'de> {
         T: de::DeserializeSeed<'de>,
     {
         use serde::de::IntoDeserializer;
+        #[cfg(feature = "verif-hooks")]
+        crate::verif::tick();
         if self.remaining == 0 {
             return Ok(None);
         }
@@ -1564,6 +1580,8 @@ impl<'de> de::SeqAccess<'de> for Compound<'_, 'de> {
     where
         T: de::DeserializeSeed<'de>,
     {
+        #[cfg(feature = "verif-hooks")]
+        crate::verif::tick();
         match self.style {
             Style::Vector {
                 ref mut len,
@@ -1649,6 +1667,8 @@ impl<'de> de::MapAccess<'de> for Compound<'_, 'de> {
     where
         K: de::DeserializeSeed<'de>,
     {
+        #[cfg(feature = "verif-hooks")]
+        crate::verif::tick();
         self.de.add_cost(4)?;
         match self.style {
             Style::Struct {
